@@ -99,10 +99,15 @@ def parseEvent (s : S) : List String → Option Event
       some (.timeout st)
   | _ => none
 
-def step (d : DS) (toks : List String) : DS × String :=
+partial def step (d : DS) (toks : List String) : DS × String :=
   match toks with
   | ["reset"] => ({}, "ok")
   | ["end"] => (d, "ok")
+  | ["init", n, me, "f"] => step d ["init", n, me]      -- file-WAL mode of the harness: same model
+  | ["crash", k, t, c] =>                               -- byte-level tail (torn / corrupt record) = absent record
+    match t.toNat?, c.toNat? with
+    | some _, some c => if c ≤ 1 then step d ["crash", k] else (d, "bad-op")
+    | _, _ => (d, "bad-op")
   | ["init", n, me] =>
     match n.toNat?, me.toNat? with
     | some n, some me =>
